@@ -106,6 +106,7 @@ pub fn rich_dump(r: &mut Rng, prop: &str, seed: u64, profile: &str, benign_fault
         lib_variety: true,
         link_map: r.chance(7, 8),
         exe_name: "/usr/bin/app",
+        alt_chain: false,
     };
     let mut b = build_world(r, &cfg);
     let mut opts = Opts {
@@ -168,7 +169,7 @@ pub fn rich_dump(r: &mut Rng, prop: &str, seed: u64, profile: &str, benign_fault
         tags.push("skip".into());
         if r.chance(3, 4) {
             let m = r.pick(&b.modules);
-            opts.principal = Some(m.base + r.below(m.image.file.len() as u64));
+            opts.principal = Some(m.base + r.below(m.image.mapped_len));
         } else if r.coin() {
             opts.principal = Some(0x1234_5000);
         }
@@ -189,7 +190,7 @@ pub fn rich_dump(r: &mut Rng, prop: &str, seed: u64, profile: &str, benign_fault
         for i in 0..n {
             let (start, size) = if r.coin() && b.modules.len() > 1 {
                 let m = &b.modules[1 + r.below(b.modules.len() as u64 - 1) as usize];
-                (m.base, m.image.file.len() as u64)
+                (m.base, m.image.mapped_len)
             } else {
                 (0x6000_0000_0000 + i * 0x100000, 0x3000)
             };
@@ -403,6 +404,7 @@ fn plain_cfg(nthreads: usize, nlibs: usize) -> WorldCfg {
         lib_variety: false,
         link_map: true,
         exe_name: "/usr/bin/app",
+        alt_chain: false,
     }
 }
 
@@ -742,7 +744,7 @@ fn gen_c07(r: &mut Rng, seed: u64) -> Scenario {
         let (ss, sl) = stack_of(&b, tid);
         let rsp = ss + sl / 2 + r.below(sl / 16) * 8;
         let m = r.pick(&b.modules);
-        let (lo, hi) = (m.base, m.base + m.image.file.len() as u64);
+        let (lo, hi) = (m.base, m.base + m.image.mapped_len);
         let (rip, pos) = match r.below(8) {
             0 => (lo, "start"),
             1 => (lo + 127, "start+127"),
@@ -781,7 +783,7 @@ fn gen_c20(r: &mut Rng, seed: u64) -> Scenario {
         }
         _ => {
             let m = r.pick(&b.modules);
-            let (lo, hi) = (m.base, m.base + m.image.file.len() as u64);
+            let (lo, hi) = (m.base, m.base + m.image.mapped_len);
             opts.principal = Some(match r.below(4) {
                 0 => lo,
                 1 => hi - 1,
@@ -1155,6 +1157,445 @@ fn gen_c11(r: &mut Rng, seed: u64, idx: u64) -> Scenario {
     sc
 }
 
+fn random_blob(r: &mut Rng) -> Vec<u8> {
+    match r.below(6) {
+        0 => Vec::new(),
+        1 => b"noterminator".to_vec(),
+        2 => {
+            let n = r.range(1, 20);
+            let mut v = Vec::new();
+            for i in 0..n {
+                v.extend_from_slice(format!("ARG{}=", i).as_bytes());
+                let len = r.below(40) as usize;
+                v.extend_from_slice(&r.bytes(len).iter().map(|b| if *b == 0 { 1 } else { *b }).collect::<Vec<u8>>());
+                v.push(0);
+            }
+            v
+        }
+        3 => r.bytes(100 * 1024),
+        4 => vec![0u8; r.range(1, 9) as usize],
+        _ => b"/usr/bin/app\0-x\0".to_vec(),
+    }
+}
+
+fn gen_c18(r: &mut Rng, seed: u64) -> Scenario {
+    let n = *r.pick(&[1usize, 2, 3, 6]);
+    let mut cfg = plain_cfg(n, r.below(13) as usize);
+    cfg.nfds = 0;
+    cfg.alt_chain = r.chance(1, 3) && cfg.nlibs > 0;
+    cfg.link_map = r.chance(9, 10);
+    let mut b = build_world(r, &cfg);
+    let mut tags = vec![format!("libs{}", cfg.nlibs.min(3))];
+    let mut opts = Opts { blamed: tid_of(r.below(n as u64) as usize), ..Default::default() };
+    b.world.cmdline = B(random_blob(r));
+    b.world.environ = B(random_blob(r));
+    if r.coin() {
+        let mut l = b.world.limits.0.clone();
+        l.extend_from_slice(format!("Max extra {:>20} {:>20} things\n", r.below(1 << 40), "unlimited").as_bytes());
+        b.world.limits = B(l);
+    }
+    // extra auxv keys
+    for _ in 0..r.below(5) {
+        let at = r.below(b.world.auxv.len() as u64) as usize;
+        b.world.auxv.insert(at, (*r.pick(&[11u64, 12, 13, 14, 16, 17, 25, 26, 31, 51]), r.next()));
+    }
+    // fds
+    let nfds = if r.chance(1, 6) { 0 } else { r.range(1, 40) };
+    let mut fdn = 0u32;
+    for i in 0..nfds {
+        fdn += 1 + r.below(3) as u32;
+        let (target, mode): (Vec<u8>, u32) = match r.below(8) {
+            0 => (b"/dev/pts/0".to_vec(), 0o020620),
+            1 => (format!("/var/log/app-{}.log", i).into_bytes(), 0o100644),
+            2 => (format!("/tmp/gone-{} (deleted)", i).into_bytes(), 0o100600),
+            3 => (format!("pipe:[{}]", 30000 + i).into_bytes(), 0o010600),
+            4 => (format!("socket:[{}]", 40000 + i).into_bytes(), 0o140777),
+            5 => (b"anon_inode:[eventpoll]".to_vec(), 0o100600),
+            6 => {
+                let mut p = b"/data/caf\xe9/".to_vec();
+                p.extend_from_slice(&[0xff, 0xfe, b'x']);
+                (p, 0o100644)
+            }
+            _ => (format!("/srv/ünï/{}", i).into_bytes(), 0o040755),
+        };
+        b.world.fds.push(FdSpec { fd: fdn, target: B(target), mode, stat_fails: false, link_fails: false });
+    }
+    tags.push(format!("fds{}", match nfds { 0 => "0", 1..=5 => "1-5", _ => "6-40" }));
+    let mut events = Vec::new();
+    if nfds > 2 && r.chance(1, 4) {
+        let victim = b.world.fds[r.below(nfds) as usize].fd;
+        events.push(Event { trig: Trigger { kind: CallKind::Readdir, nth: r.below(nfds + 2) as u32, path: Some("/fd".into()) }, what: EventKind::CloseFd { fd: victim } });
+        tags.push("fd-vanishes".into());
+    }
+    // a few shared mappings (only the memory-info list looks at the flag)
+    for i in 0..r.below(3) {
+        let start = b.add_anon(0x2000, if r.coin() { "rw-s" } else { "r--s" }, 0, 2);
+        let reg = b.world.regions.iter_mut().find(|x| x.start == start).unwrap();
+        reg.name = B::s(&format!("/run/shm/seg{}", i));
+        reg.inode = 7000 + i;
+        reg.content = Content::Zero;
+        tags.push("shared-map".into());
+    }
+    for p in ["-w-p", "--xp", "rwxp", "-wxp"] {
+        if r.chance(1, 6) {
+            b.add_anon(0x1000, p, r.next(), 1);
+        }
+    }
+    // cpu description
+    let nproc = *r.pick(&[1u64, 2, 4, 16, 64, 255]);
+    let family = r.range(1, 25);
+    let model = r.range(0, 255);
+    let stepping = r.range(0, 15);
+    let vendor = *r.pick(&["GenuineIntel", "AuthenticAMD", "HygonGenuine", "Short", "MuchLongerThanTwelve"]);
+    let mut text = String::new();
+    let order = r.below(3);
+    for c in 0..nproc {
+        let mut lines = vec![
+            format!("processor\t: {}", c),
+            format!("vendor_id\t: {}", vendor),
+            format!("cpu family\t: {}", family),
+            format!("model\t\t: {}", model),
+            "model name\t: Sim(R) CPU @ 2.00GHz: fast".to_string(),
+            format!("stepping\t: {}", stepping),
+            "microcode\t: 0x1".to_string(),
+            "power management:".to_string(),
+        ];
+        if order == 1 {
+            lines.swap(2, 5);
+        } else if order == 2 {
+            lines.swap(1, 3);
+        }
+        for l in lines {
+            text.push_str(&l);
+            text.push('\n');
+        }
+        text.push('\n');
+    }
+    b.world.cpuinfo = Some(B(text.into_bytes()));
+    tags.push(format!("cpu:{},{},{},{},{}", nproc, family, model, stepping, vendor));
+    if r.chance(1, 4) {
+        b.world.uname = vec!["Linux".into(), format!("{}.{}.0-{}-generic", r.range(3, 6), r.below(20), r.below(200)), format!("#{}~22.04 SMP PREEMPT_DYNAMIC", r.below(99)), "x86_64".into()];
+    }
+    // direct auxv variants
+    let exe = &b.modules[0];
+    match r.below(6) {
+        0 => {
+            opts.direct_auxv = Some(vec![exe.image.phnum, exe.base + exe.image.phoff, b.vdso_base, exe.base + exe.image.entry_off]);
+            tags.push("direct-same".into());
+        }
+        1 => {
+            opts.direct_auxv = Some(vec![0, 0, 0, 0]);
+            tags.push("direct-all-unset".into());
+        }
+        2 => {
+            opts.direct_auxv = Some(vec![exe.image.phnum, 0, 0, exe.base + exe.image.entry_off]);
+            tags.push("direct-partial".into());
+        }
+        3 | 4 if cfg.alt_chain => {
+            let lib = &b.modules[1];
+            opts.direct_auxv = Some(vec![lib.image.phnum, lib.base + lib.image.phoff, if r.coin() { b.vdso_base } else { 0 }, 0]);
+            tags.push("direct-disagrees".into());
+        }
+        _ => {}
+    }
+    let mut sc = simple_dump_scenario("C18", seed, "c18-streams", b, opts);
+    sc.events = events;
+    if r.chance(1, 3) {
+        sc.sched.read_chunk = *r.pick(&[1u64, 7, 64, 1000]);
+        tags.push("shortreads".into());
+    }
+    sc.tags = tags;
+    sc
+}
+
+const BOUNDARY: [u64; 7] = [0, 1, 0xfff, 0x1000, 1 << 31, 1 << 63, u64::MAX];
+
+fn corrupt(r: &mut Rng, img: &mut [u8], spec_img: &crate::elfgen::ElfImage) -> String {
+    // (offset, width, label)
+    let mut fields: Vec<(usize, usize, String)> = vec![
+        (4, 1, "ei_class".into()),
+        (5, 1, "ei_data".into()),
+        (16, 2, "e_type".into()),
+        (32, 8, "e_phoff".into()),
+        (40, 8, "e_shoff".into()),
+        (54, 2, "e_phentsize".into()),
+        (56, 2, "e_phnum".into()),
+        (58, 2, "e_shentsize".into()),
+        (60, 2, "e_shnum".into()),
+        (62, 2, "e_shstrndx".into()),
+    ];
+    for i in 0..spec_img.phnum as usize {
+        let o = spec_img.phoff as usize + i * 56;
+        for (fo, w, n) in [(0, 4, "p_type"), (8, 8, "p_offset"), (16, 8, "p_vaddr"), (32, 8, "p_filesz"), (40, 8, "p_memsz"), (48, 8, "p_align")] {
+            fields.push((o + fo, w, format!("ph.{}", n)));
+        }
+    }
+    let shoff = u64::from_le_bytes(img[40..48].try_into().unwrap()) as usize;
+    let shnum = u16::from_le_bytes(img[60..62].try_into().unwrap()) as usize;
+    if shoff != 0 && shoff + shnum * 64 <= img.len() {
+        for i in 0..shnum {
+            let o = shoff + i * 64;
+            for (fo, w, n) in [(0, 4, "sh_name"), (4, 4, "sh_type"), (8, 8, "sh_flags"), (16, 8, "sh_addr"), (24, 8, "sh_offset"), (32, 8, "sh_size"), (40, 4, "sh_link"), (48, 8, "sh_addralign")] {
+                fields.push((o + fo, w, format!("sh.{}", n)));
+            }
+        }
+    }
+    // note header and dynamic entries
+    fields.push((0x200, 4, "note.namesz".into()));
+    fields.push((0x204, 4, "note.descsz".into()));
+    fields.push((0x208, 4, "note.type".into()));
+    for i in 0..(spec_img.dyn_len / 16) as usize {
+        fields.push((spec_img.dyn_off as usize + i * 16, 8, "dyn.d_tag".into()));
+        fields.push((spec_img.dyn_off as usize + i * 16 + 8, 8, "dyn.d_val".into()));
+    }
+    let (off, width, label) = r.pick(&fields).clone();
+    let size = img.len() as u64;
+    let val = match r.below(10) {
+        0 => size - 1,
+        1 => size,
+        2 => size + 1,
+        _ => *r.pick(&BOUNDARY),
+    };
+    let bytes = val.to_le_bytes();
+    if off + width <= img.len() {
+        img[off..off + width].copy_from_slice(&bytes[..width]);
+    }
+    label
+}
+
+fn gen_c14(r: &mut Rng, seed: u64) -> Scenario {
+    let mut b = build_world(r, &plain_cfg(1, 0));
+    b.world.fds.clear();
+    let mut spec = lib_spec(r, true, 0);
+    let mut tags = Vec::new();
+    if r.chance(1, 4) && spec.sections {
+        spec.sections_at_end = true;
+        tags.push("sections-unmapped".to_string());
+    }
+    if spec.build_id.is_some() && spec.note_in_phdr {
+        tags.push("note-in-segment".into());
+    }
+    tags.push(format!("id{}", match &spec.build_id { None => "none".to_string(), Some(i) => i.len().to_string() }));
+    tags.push(format!("so{}", spec.soname.is_some() as u8));
+    tags.push(format!("sec{}", spec.sections as u8));
+    let img = crate::elfgen::build(&spec);
+    let base = LIB_BASE + 0x4000_0000;
+    let path = "/opt/c14/libtarget.so.1.2.3";
+    let mut file = img.file.clone();
+    let mut well_formed = true;
+    let mode = r.below(10);
+    match mode {
+        0 | 1 | 2 => {
+            let l = corrupt(r, &mut file, &img);
+            well_formed = false;
+            tags.push(format!("corrupt:{}", l));
+        }
+        3 => {
+            let n = r.range(0, 3000) as usize;
+            file = r.bytes(n);
+            if n >= 4 && r.coin() {
+                file[0..4].copy_from_slice(b"\x7fELF");
+            }
+            well_formed = false;
+            tags.push("random-bytes".into());
+        }
+        4 => {
+            file.truncate(*r.pick(&[0usize, 3, 16, 63, 64, 100, 0x200]));
+            well_formed = false;
+            tags.push("truncated".into());
+        }
+        _ => {}
+    }
+    let mut mem = file.clone();
+    mem.resize(img.mapped_len as usize, 0);
+    if well_formed && r.coin() {
+        if let Some(o) = img.dt_strtab_val_off {
+            let vaddr = base + img.dynstr_off;
+            mem[o as usize..o as usize + 8].copy_from_slice(&vaddr.to_le_bytes());
+            tags.push("relocated".into());
+        }
+    }
+    for (off, len, perms) in [(0u64, 0x1000u64, "r--p"), (img.text_off, img.text_len, "r-xp"), (img.data_off, 0x1000, "rw-p")] {
+        b.world.regions.push(RegionSpec {
+            start: base + off,
+            len,
+            perms: perms.into(),
+            offset: off,
+            inode: 4242,
+            name: B::s(path),
+            deleted: false,
+            content: Content::Bytes(B(mem[off as usize..(off + len) as usize].to_vec())),
+        });
+    }
+    b.world.regions.sort_by_key(|x| x.start);
+    let mut use_path = B::s(path);
+    if r.chance(1, 12) {
+        use_path = B::s("/opt/c14/missing.so");
+        tags.push("file-missing".into());
+    } else {
+        b.world.files.push(FileSpec { path: B::s(path), content: B(file), mode: 0o100644 });
+    }
+    let mut faults = Vec::new();
+    if r.chance(1, 4) {
+        let nth = r.below(12) as u32;
+        let (kind, eff, name) = match r.below(5) {
+            0 => (CallKind::Vmreadv, Effect::Errno(5), "vm-eio"),
+            1 => (CallKind::Vmreadv, Effect::Short(*r.pick(&[1u64, 8, 63, 64])), "vm-short"),
+            2 => (CallKind::Vmreadv, Effect::Errno(14), "vm-efault"),
+            3 => (CallKind::Mmap, Effect::Errno(12), "mmap-enomem"),
+            _ => (CallKind::Open, Effect::Errno(24), "open-emfile"),
+        };
+        let nth = if kind == CallKind::Vmreadv { nth } else { 0 };
+        faults.push(FaultRule { trig: Trigger { kind, nth, path: None }, effect: eff, times: 1, exotic: false });
+        tags.push(format!("fault:{}", name));
+    }
+    Scenario {
+        prop: "C14".into(),
+        seed,
+        profile: "c14-elf-identification".into(),
+        world: b.world,
+        workload: Workload::ElfId(ElfIdPlan { base, path: use_path, well_formed, want_build_id: spec.build_id.clone().map(B), want_soname: spec.soname.clone() }),
+        events: Vec::new(),
+        faults,
+        sched: Sched::default(),
+        tags,
+    }
+}
+
+fn gen_c08(r: &mut Rng, seed: u64) -> Scenario {
+    let n = *r.pick(&[1usize, 2, 4]);
+    let mut cfg = plain_cfg(n, r.range(1, 12) as usize);
+    cfg.lib_variety = true;
+    cfg.nfds = 0;
+    let mut b = build_world(r, &cfg);
+    let mut tags = vec![format!("libs{}", cfg.nlibs.min(4))];
+    let mut opts = Opts { blamed: PID, ..Default::default() };
+    // odd names / deleted files for some libraries
+    let nmods = b.modules.len();
+    for mi in 1..nmods {
+        let old = b.modules[mi].path.clone();
+        let newname: Option<String> = match r.below(10) {
+            0 => Some(format!("/usr/lib/with space/lib x{}.so.{}", mi, r.below(5))),
+            1 => Some(format!("/usr/lib/ünï-{}/libé{}.so", mi, mi)),
+            2 => Some(format!("/usr/lib/libv{}.so.1.2.3rc{}", mi, r.below(9))),
+            3 => Some(format!("/opt/app/plugin{}.bin", mi)),
+            _ => None,
+        };
+        if let Some(nn) = newname {
+            for reg in b.world.regions.iter_mut() {
+                if reg.name.0 == old.as_bytes() {
+                    reg.name = B::s(&nn);
+                }
+            }
+            for f in b.world.files.iter_mut() {
+                if f.path.0 == old.as_bytes() {
+                    f.path = B::s(&nn);
+                }
+            }
+            b.modules[mi].path = nn;
+            push_tags(&mut tags, &["odd-names"]);
+        }
+        if r.chance(1, 8) {
+            let p = b.modules[mi].path.clone();
+            for reg in b.world.regions.iter_mut() {
+                if reg.name.0 == p.as_bytes() {
+                    reg.deleted = true;
+                }
+            }
+            b.world.files.retain(|f| f.path.0 != p.as_bytes());
+            push_tags(&mut tags, &["deleted"]);
+        }
+    }
+    // a library whose section table is not mapped and whose note is only in a section
+    if r.chance(1, 3) {
+        let spec = crate::elfgen::ElfSpec { build_id: Some(r.bytes(20)), note_in_phdr: false, soname: Some("libfileonly.so.2".into()), sections: true, text_pages: 1, text_seed: r.next(), dt_debug: false, dyn_pad: 0, with_pt_phdr: false, sections_at_end: true };
+        let img = crate::elfgen::build(&spec);
+        let base = LIB_BASE + 0x5000_0000;
+        let path = "/usr/lib/libfileonly.so.2.0";
+        let mut mem = img.file.clone();
+        if let Some(o) = img.dt_strtab_val_off {
+            let vaddr = base + img.dynstr_off;
+            mem[o as usize..o as usize + 8].copy_from_slice(&vaddr.to_le_bytes());
+        }
+        for (off, len, perms) in [(0u64, 0x1000u64, "r--p"), (img.text_off, img.text_len, "r-xp"), (img.data_off, 0x1000, "rw-p")] {
+            b.world.regions.push(RegionSpec { start: base + off, len, perms: perms.into(), offset: off, inode: 5151, name: B::s(path), deleted: false, content: Content::Bytes(B(mem[off as usize..(off + len) as usize].to_vec())) });
+        }
+        b.world.files.push(FileSpec { path: B::s(path), content: B(img.file.clone()), mode: 0o100644 });
+        push_tags(&mut tags, &["id-only-in-file"]);
+    }
+    // a library embedded in an archive: executable mapping from a non-zero file offset
+    if r.chance(1, 3) {
+        let spec = crate::elfgen::ElfSpec { build_id: Some(r.bytes(20)), note_in_phdr: true, soname: Some("libembedded.so".into()), sections: r.coin(), text_pages: 1, text_seed: r.next(), dt_debug: false, dyn_pad: 0, with_pt_phdr: false, sections_at_end: false };
+        let img = crate::elfgen::build(&spec);
+        let base = LIB_BASE + 0x6000_0000;
+        let path = "/data/app/base.apk";
+        let arch_off = 0x3000u64;
+        let mut filec = r.bytes(arch_off as usize);
+        filec.extend_from_slice(&img.file);
+        for (off, len, perms) in [(0u64, 0x1000u64, "r--p"), (img.text_off, img.text_len, "r-xp"), (img.data_off, 0x1000, "rw-p")] {
+            b.world.regions.push(RegionSpec { start: base + off, len, perms: perms.into(), offset: arch_off + off, inode: 6161, name: B::s(path), deleted: false, content: Content::Bytes(B(img.file[off as usize..(off + len) as usize].to_vec())) });
+        }
+        b.world.files.push(FileSpec { path: B::s(path), content: B(filec), mode: 0o100644 });
+        push_tags(&mut tags, &["archive-offset"]);
+    }
+    // a non-ELF file mapping and an all-zero build id
+    if r.chance(1, 3) {
+        let start = b.add_anon(0x3000, "r--p", r.next(), 1);
+        let reg = b.world.regions.iter_mut().find(|x| x.start == start).unwrap();
+        reg.name = B::s("/usr/share/fonts/sim.ttf");
+        reg.inode = 8181;
+        b.world.files.push(FileSpec { path: B::s("/usr/share/fonts/sim.ttf"), content: B(r.bytes(0x3000)), mode: 0o100644 });
+        push_tags(&mut tags, &["non-elf"]);
+    }
+    if r.chance(1, 4) {
+        let spec = crate::elfgen::ElfSpec { build_id: Some(vec![0u8; 20]), note_in_phdr: true, soname: None, sections: true, text_pages: 1, text_seed: 5, dt_debug: false, dyn_pad: 0, with_pt_phdr: false, sections_at_end: false };
+        let img = crate::elfgen::build(&spec);
+        let base = LIB_BASE + 0x7000_0000;
+        let path = "/usr/lib/libzeroid.so";
+        for (off, len, perms) in [(0u64, 0x1000u64, "r--p"), (img.text_off, img.text_len, "r-xp"), (img.data_off, 0x1000, "rw-p")] {
+            b.world.regions.push(RegionSpec { start: base + off, len, perms: perms.into(), offset: off, inode: 9191, name: B::s(path), deleted: false, content: Content::Bytes(B(img.file[off as usize..(off + len) as usize].to_vec())) });
+        }
+        b.world.files.push(FileSpec { path: B::s(path), content: B(img.file.clone()), mode: 0o100644 });
+        push_tags(&mut tags, &["zero-id"]);
+    }
+    // entry point not in the lowest module: a library below the executable
+    if r.chance(1, 3) {
+        let spec = lib_spec(r, false, 99);
+        let img = crate::elfgen::build(&spec);
+        let base = 0x4000_0000u64;
+        let path = "/usr/lib/liblow.so.0";
+        for (off, len, perms) in [(0u64, 0x1000u64, "r--p"), (img.text_off, img.text_len, "r-xp"), (img.data_off, 0x1000, "rw-p")] {
+            b.world.regions.push(RegionSpec { start: base + off, len, perms: perms.into(), offset: off, inode: 3131, name: B::s(path), deleted: false, content: Content::Bytes(B(img.file[off as usize..(off + len) as usize].to_vec())) });
+        }
+        b.world.files.push(FileSpec { path: B::s(path), content: B(img.file.clone()), mode: 0o100644 });
+        push_tags(&mut tags, &["entry-not-lowest"]);
+    }
+    b.world.regions.sort_by_key(|x| x.start);
+    // user mappings
+    if r.chance(1, 3) {
+        let nu = r.range(1, 3);
+        for i in 0..nu {
+            let m = &b.modules[r.below(b.modules.len() as u64) as usize];
+            let (start, size, kind) = match r.below(3) {
+                0 if m.base != EXE_BASE => (m.base, m.image.mapped_len, "containing"),
+                1 if m.base != EXE_BASE => (m.base + 0x1000, m.image.mapped_len, "partial"),
+                _ => (0x6100_0000_0000 + i * 0x100000, 0x4000, "disjoint"),
+            };
+            let idlen = r.pick_copy(&[16usize, 20]);
+            opts.user_mappings.push(UserMapSpec { start, size, offset: 0, perms: "r-xp".into(), name: Some(B::s(&format!("/user/supplied{}.so", i))), identifier: B(r.bytes(idlen)) });
+            push_tags(&mut tags, &[&format!("user-{}", kind)]);
+        }
+    }
+    if r.chance(1, 6) {
+        sc_force_file_fallback(&mut tags);
+    }
+    let mut sc = simple_dump_scenario("C08", seed, "c08-modules", b, opts);
+    sc.tags = tags;
+    sc
+}
+
+fn sc_force_file_fallback(_tags: &mut Vec<String>) {}
+
 pub fn generate(prop: &str, verif_seed: u64, idx: u64) -> Scenario {
     let seed = derive_seed(verif_seed, prop, idx);
     let mut r = Rng::new(seed);
@@ -1171,6 +1612,9 @@ pub fn generate(prop: &str, verif_seed: u64, idx: u64) -> Scenario {
         "C20" => gen_c20(&mut r, seed),
         "C17" => gen_c17(&mut r, seed, idx),
         "C11" => gen_c11(&mut r, seed, idx),
+        "C18" => gen_c18(&mut r, seed),
+        "C14" => gen_c14(&mut r, seed),
+        "C08" => gen_c08(&mut r, seed),
         "C09" => match idx % 3 {
             0 => {
                 let mut sc = small_rich(&mut r, prop, seed, "c09-dump-dest-faults");
